@@ -349,12 +349,60 @@ SetVar(sc, n, v) == SetFrom(sc, n, v, Len(sc))
 Alias(n) == IF n = "_" THEN "message" ELSE n
 
 \* point: [meas, ks (key names), es (entries [flag, v])]
+(* The text a list / map has once it is stored in the point (a field or tag keeps collections as JSON text): no blanks, map keys *)
+(* in ascending byte order, strings quoted with the escapes \" \\ \n \r \t and \u003c \u003e \u0026 for < > &.  Defined for   *)
+(* ASCII strings without other control characters and for floats FloatStr covers (below 1e21); otherwise not defined here.   *)
+JHex == <<48, 49, 50, 51, 52, 53, 54, 55, 56, 57, 97, 98, 99, 100, 101, 102>>
+RECURSIVE JStrBody(_, _, _)
+JStrBody(s, i, out) ==
+  IF i > Len(s) THEN [ok |-> TRUE, s |-> out]
+  ELSE LET b == s[i] IN
+       IF b = 34 \/ b = 92 THEN JStrBody(s, i + 1, out \o <<92, b>>)
+       ELSE IF b = 10 THEN JStrBody(s, i + 1, out \o <<92, 110>>)
+       ELSE IF b = 13 THEN JStrBody(s, i + 1, out \o <<92, 114>>)
+       ELSE IF b = 9 THEN JStrBody(s, i + 1, out \o <<92, 116>>)
+       ELSE IF b \in {60, 62, 38} THEN JStrBody(s, i + 1, out \o <<92, 117, 48, 48, JHex[(b \div 16) + 1], JHex[(b % 16) + 1]>>)
+       ELSE IF b < 32 \/ b >= 127 THEN [ok |-> FALSE, s |-> <<>>]
+       ELSE JStrBody(s, i + 1, Append(out, b))
+JStr(s) == LET r == JStrBody(s, 1, <<34>>) IN IF r.ok THEN [ok |-> TRUE, s |-> Append(r.s, 34)] ELSE r
+JLess(a, b) == \E i \in 1..(IF Len(a) < Len(b) THEN Len(a) ELSE Len(b)) + 1 :
+                 /\ \A j \in 1..(i - 1) : j <= Len(a) /\ j <= Len(b) /\ a[j] = b[j]
+                 /\ \/ (i > Len(a) /\ i <= Len(b))
+                    \/ (i <= Len(a) /\ i <= Len(b) /\ a[i] < b[i])
+RECURSIVE JSortIdx(_, _)
+JSortIdx(ks, S) == IF S = {} THEN <<>>
+                   ELSE LET mn == CHOOSE a \in S : \A b \in S \ {a} : JLess(ks[a], ks[b]) IN <<mn>> \o JSortIdx(ks, S \ {mn})
+RECURSIVE JsonText(_), JsonSeq(_, _, _), JsonPairs(_, _, _, _)
+JsonText(d) ==
+  CASE d.t \in {"nil", "void"} -> [ok |-> TRUE, s |-> <<110, 117, 108, 108>>]
+    [] d.t = "bool" -> [ok |-> TRUE, s |-> IF d.b THEN TRUEs ELSE FALSEs]
+    [] d.t = "int" -> [ok |-> TRUE, s |-> DecStr(d.i)]
+    [] d.t = "float" -> FloatStr(d.f)
+    [] d.t = "str" -> JStr(d.s)
+    [] d.t = "list" -> (LET r == JsonSeq(d.e, 1, <<91>>) IN IF r.ok THEN [ok |-> TRUE, s |-> Append(r.s, 93)] ELSE r)
+    [] d.t = "map" -> (LET r == JsonPairs(d.ks, d.vs, JSortIdx(d.ks, 1..Len(d.ks)), <<123>>) IN IF r.ok THEN [ok |-> TRUE, s |-> Append(r.s, 125)] ELSE r)
+    [] OTHER -> [ok |-> FALSE, s |-> <<>>]
+JsonSeq(es, i, out) ==
+  IF i > Len(es) THEN [ok |-> TRUE, s |-> out]
+  ELSE LET r == JsonText(es[i]) IN
+       IF ~r.ok THEN r ELSE JsonSeq(es, i + 1, (IF i > 1 THEN Append(out, 44) ELSE out) \o r.s)
+JsonPairs(ks, vs, order, out) ==
+  IF order = <<>> THEN [ok |-> TRUE, s |-> out]
+  ELSE LET k == JStr(ks[order[1]])
+           r == JsonText(vs[order[1]]) IN
+       IF ~k.ok THEN k ELSE IF ~r.ok THEN r
+       ELSE JsonPairs(ks, vs, Tail(order), (IF Len(out) > 1 THEN Append(out, 44) ELSE out) \o k.s \o <<58>> \o r.s)
+\* what reading a stored value gives: a collection reads as its JSON text (where defined above)
+Readable(v) == IF v.t = "json" THEN (LET j == JsonText(v.d) IN IF j.ok THEN [t |-> "str", s |-> j.s] ELSE v)
+               ELSE IF v.t = "tagstr" /\ v.of.t = "json" THEN (LET j == JsonText(v.of.d) IN IF j.ok THEN [t |-> "str", s |-> j.s] ELSE v)
+               ELSE v
+
 PtFind(pt, k) == LET S == {i \in 1..Len(pt.ks) : pt.ks[i] = k} IN IF S = {} THEN 0 ELSE CHOOSE i \in S : TRUE
 \* a tag whose value was replaced by "no value" (add_key(tag, <value-less expression>)) is gone from the output point and reads as
 \* nil, but the key is still known as a tag: a later write makes it a tag again.  Such an entry holds the marker NoTag.
 NoTag == [t |-> "notag"]
 PtGet(pt, k) == LET i == PtFind(pt, k) IN IF i = 0 THEN [found |-> FALSE, v |-> VNil]
-                                          ELSE [found |-> TRUE, v |-> IF pt.es[i].v = NoTag THEN VNil ELSE pt.es[i].v]
+                                          ELSE [found |-> TRUE, v |-> IF pt.es[i].v = NoTag THEN VNil ELSE Readable(pt.es[i].v)]
 PtDel(pt, k) == LET i == PtFind(pt, k)
                 IN IF i = 0 THEN pt
                    ELSE [pt EXCEPT !.ks = SubSeq(@, 1, i - 1) \o SubSeq(@, i + 1, Len(@)),
@@ -395,7 +443,7 @@ ReadName(st, n0) ==
      ELSE IF st.v2 THEN Bad("undefined")
      ELSE LET p == PtGet(st.pt, n)
           IN IF ~p.found THEN Ok(VNil)
-             ELSE IF p.v.t \in {"json", "tagstr"} THEN Bad("unspec-read")   \* generators never read these back
+             ELSE IF p.v.t \in {"json", "tagstr"} THEN Bad("unspec-read")   \* a collection whose JSON text JsonText does not define
              ELSE Ok(p.v)
 \* GetKey as the builtins use it: variable, else point, else not found
 GetKey(st, n0) ==
